@@ -94,7 +94,6 @@ package cluster
 //@   pure
 //@ func (*reservation).Resources
 //@   pure
-//@   requires r != nil
 //@   ensures result == r.resources
 // endpoints declared by the first k resource records of a list
 //@ spec portsUpTo(rs: []atypes.Resources, k: int): int = ite(k <= 0, 0, portsUpTo(rs, k - 1) + ite(len(rs[k-1].Resources.Endpoints) >= 0, len(rs[k-1].Resources.Endpoints), 0))
@@ -133,7 +132,7 @@ package cluster
 
 // admission: all pending reservations together with the new one fit into the free external ports
 //@ func reservationAllocateable
-//@   requires newReservation != nil && externalPortsAvailable >= 0 && (forall i: int {reservations[i]} :: 0 <= i && i < len(reservations) ==> reservations[i] != nil)
+//@   requires newReservation != nil && externalPortsAvailable >= 0
 //@   modifies nothing
 //@   loop 1 modifies nothing
 //@   loop 1 invariant 0 <= iter && iter <= len(reservations)
@@ -182,3 +181,85 @@ package cluster
 //@   loop 1 invariant [endpoints] forall i: int {replacedResources[i].Resources.Endpoints} :: 0 <= i && i < iter ==> replacedResources[i].Resources.Endpoints == ranged[i].Resources.Endpoints
 
 //@ property C12 := (*inventoryService).committedResources#*
+
+// ---- C12: the inventory service's event loop ----
+//@ extern "time".NewTimer(d)
+//@   modifies nothing
+//@   fresh
+//@   ensures result != nil && result.C != nil && ChanKind[result.C] == 0
+//@ extern "time".(*Timer).Stop(t)
+//@   pure
+//@ extern "time".(*Timer).Reset(t, d)
+//@   pure
+//@ func (*inventoryService).runCheck
+//@   trusted
+//@   modifies ghost ChanKind, ghost ChanPending, ghost InFlight
+//@   ensures result != nil && fresh(result) && InFlight == old(InFlight) + 1
+//@   ensures ChanKind == old(ChanKind)[result := 1] && ChanPending == old(ChanPending)[result := true]
+//@ func (*inventoryService).updateInventoryMetrics
+//@   trusted
+//@   pure
+//@ func updateReservationMetrics
+//@   trusted
+//@   pure
+//@ func (*inventoryService).getStatus
+//@   trusted
+//@   modifies nothing
+// number of reservations held when the request being served was received
+//@ ghost LenAtReq: int
+//@ import event "github.com/ovrclk/akash/provider/event"
+//@ extern mtypes.(LeaseID).OrderID(id)
+//@   pure
+//@ extern mtypes.(OrderID).Equals(id, other)
+//@   pure
+//@ func (*reservation).OrderID
+//@   pure
+//@ func newReservation
+//@   modifies nothing
+//@   fresh
+//@   ensures result != nil && !result.allocated
+//@ func (*inventoryService).run$3
+//@   trusted
+//@   pure
+//@ func (*inventoryService).run$4
+//@   trusted
+//@   pure
+// the two local switches of the loop
+//@ func (*inventoryService).run$1
+//@   modifies reserveChLocal
+//@   ensures reserveChLocal == is.reservech
+//@ func (*inventoryService).run$2
+//@   modifies reserveChLocal, runch, ghost ChanKind, ghost ChanPending, ghost InFlight
+//@   ensures reserveChLocal == nil
+//@   ensures old(runch) != nil ==> runch == old(runch) && InFlight == old(InFlight) && ChanKind == old(ChanKind) && ChanPending == old(ChanPending)
+//@   ensures old(runch) == nil ==> runch != nil && fresh(runch) && InFlight == old(InFlight) + 1 && ChanKind == old(ChanKind)[runch := 1] && ChanPending == old(ChanPending)[runch := true]
+// the list of reservations changes by exactly one entry per granted reserve / successful release and not at all
+// otherwise (lookups, status queries, refused or unknown requests); the free-port counter moves only when a
+// reservation's deployed flag actually flips
+//@ func (*inventoryService).run
+//@   requires is != nil
+//@   modifies anyfield(inventoryService, availableExternalPorts), anyfield(reservation, allocated), reservations[**], ghost ChanKind, ghost ChanPending, ghost InFlight, ghost LenAtReq
+//@   select 1 case 2 ghost LenAtReq := len(reservations)
+//@   select 1 case 2 assume !fresh(grpRes(recv.resources))
+//@   select 1 case 3 ghost LenAtReq := len(reservations)
+//@   select 1 case 4 ghost LenAtReq := len(reservations)
+//@   select 1 case 5 ghost LenAtReq := len(reservations)
+//@   onsend 1 assert len(reservations) == LenAtReq + 1
+//@   onsend 2 assert len(reservations) == LenAtReq
+//@   onsend 3 assert len(reservations) == LenAtReq
+//@   onsend 4 assert len(reservations) == LenAtReq
+//@   onsend 5 assert len(reservations) == LenAtReq - 1
+//@   onsend 6 assert len(reservations) == LenAtReq
+//@   onsend 7 assert len(reservations) == LenAtReq
+//@   oncall cluster.reservationCountEndpoints 1 assert res.allocated != allocatedPrev
+//@   loop 1 invariant 0 <= len(reservations) && len(reservations) <= cap(reservations)
+//@   loop 1 invariant arr(reservations) == nil || arr(reservations) == atloop(arr(reservations)) || freshloop(reservations)
+//@   loop 2 modifies anyfield(inventoryService, availableExternalPorts), anyfield(reservation, allocated), ghost ChanKind, ghost ChanPending, ghost InFlight
+//@   loop 2 invariant 0 <= iter
+//@   loop 3 modifies nothing
+//@   loop 3 invariant 0 <= iter
+//@   loop 4 modifies nothing
+//@   loop 4 invariant 0 <= iter && iter <= len(ranged) && ranged == reservations
+//@   loop 5 modifies nothing
+//@   loop 5 invariant 0 <= iter
+//@ property C12 := (*inventoryService).run#*
